@@ -20,7 +20,7 @@ TEXT = {
  "C04": ("translation_validation", "4 (C04)", "Lean model + correspondence; exact provenance predicates (edge on input edge, vertex = input vertex or exact intersection point, closed, >= 3 vertices, area, orientation)",
          "Per run: result coordinates compared bit for bit with the model; the provenance predicates of the statement are evaluated in exact rational arithmetic on the implementation's output (tolerance 0 on exact families). Inputs sampled."),
  "C05": ("translation_validation", "4 (C05)", "Lean model + correspondence; partition formulas over the five results decided by the region comparator; exact shoelace areas; theorems C05_pointwise / C05_of_C01 / tables / C05_fillQueue_same_geometry (every operand pair) / C05_computeFields_op_independent (every arena) / C05_union_xor_same_subdivision (whole sweep loop, every input and arithmetic)",
-         "Five calls per operand pair; pairwise disjointness, cover of the union and xor = union of differences are decided for all points of the checked cells; area identities exactly on exact runs. Theorems: the identities follow pointwise from C01; table consistency for every flag combination; for every operand pair fill_queue gives all four operations the same points, links, operand flags, queue order and boxes (only contour ids / exterior flags of clipping events differ, which the event order never reads); compute_fields lets the operation decide result_transition and prev_in_result only — the in/out flags are the same for all four operations; the whole sweep loop under union and under xor yields the same sorted_events, counts and arena up to those two fields (induction over the loop), so their results differ only through the selection tables."),
+         "Five calls per operand pair; pairwise disjointness, cover of the union and xor = union of differences are decided for all points of the checked cells; area identities exactly on exact runs. Theorems: the identities follow pointwise from C01; table consistency for every flag combination; for every operand pair fill_queue gives all four operations the same points, links, operand flags, queue order and boxes (only contour ids / exterior flags of clipping events differ, which the event order never reads); compute_fields lets the operation decide result_transition and prev_in_result only — the in/out flags are the same for all four operations; the whole sweep loop under union and under xor yields the same sorted_events, counts and arena up to those two fields (induction over the loop), so their results differ only through the selection tables; for all four operations the loop is the Union loop cut off at the operation's exit test (C05_sweep_is_common_sweep_cut)."),
  "C06": ("translation_validation", "4 (C06)", "Lean model + correspondence; theorems C06_empty (every input), C06_tables_symmetric / C06_tables_self (every flag combination); region comparator and ring-set equality for swap / self / disjoint cases",
          "Theorems: (all inputs, all roundings) an operand without edges takes the shortcut and yields the listed value; (all edge types and flags) the selection and transition tables of intersection, union and xor ignore is_subject, and a coincident same-orientation pair yields one edge for intersection/union and none for difference/xor. Per run: swap, self-operations, empty operands (no polygons / empty rings), disjoint and touching boxes, compared as ring sets on exact runs and as regions otherwise."),
  "C07": ("translation_validation", "4 (C07)", "theorems C07_wrapping / C07_repeated_vertices for every input; Lean model + correspondence over all four real trait impls; region comparator for rotations / reversals / permutations",
